@@ -332,6 +332,9 @@ class Neighbor:
             and self.capability == other.capability
             and self.session.auto_discovery == other.session.auto_discovery
             and self.families() == other.families()
+            # both go into the OPEN (ADD-PATH and extended next hop capabilities): a change needs a new session
+            and self.addpaths() == other.addpaths()
+            and self.nexthops() == other.nexthops()
         )
 
     def __ne__(self, other: object) -> bool:
